@@ -227,7 +227,57 @@ func modelRunBubble(tp *core.Tape, e *core.Env, cfg nodeCfg) (ops []opRec) {
 			sort.Strings(desc)
 			e.Logf("op %d update [%s]", i, strings.Join(desc, " "))
 			ops = append(ops, opRec{"update", desc})
+			reloadFails := tp.Bool("prom_reload_fails", 1, 8)
+			if reloadFails {
+				n.SC.ReloadErr = fmt.Errorf("prometheus reload failed (injected)")
+			}
 			err := n.SC.PostTargets(&shard.UpdateTargetsRequest{Targets: req})
+			n.SC.ReloadErr = nil
+			if reloadFails {
+				e.Fault("prom_reload_fails")
+				if err == nil {
+					e.Violate("failed-update-acknowledged", "", "the Prometheus reload failed during a target update but the update was acknowledged")
+					return
+				}
+				// not acknowledged: the store keeps the previous assignment; in memory the sidecar
+				// may hold the old or the new one, but the two must not be mixed
+				st, _ := n.SC.GetStatus()
+				same := func(keys map[uint64]bool) bool {
+					if len(keys) != len(st) {
+						return false
+					}
+					for h := range keys {
+						if st[h] == nil {
+							return false
+						}
+					}
+					return true
+				}
+				newKeys, oldKeys := map[uint64]bool{}, map[uint64]bool{}
+				for h := range cur {
+					newKeys[h] = true
+				}
+				for h := range m.entries {
+					oldKeys[h] = true
+				}
+				switch {
+				case same(newKeys):
+					m.UpdateMemoryOnly(req, time.Now())
+				case same(oldKeys):
+				default:
+					e.Violate("failed-update-mixed-state", "", "after a target update whose Prometheus reload failed the status map is neither the old nor the new assignment")
+					return
+				}
+				// the coordinator only knows what the shard reports; the next successful update repairs it
+				cur = map[uint64]*target.Target{}
+				curJob = map[uint64]string{}
+				for h := range m.entries {
+					cur[h] = MkTarget(h, m.jobOf[h], m.entries[h].state, m.entries[h].series, m.entries[h].total)
+					curJob[h] = m.jobOf[h]
+				}
+				check("update")
+				continue
+			}
 			if err != nil {
 				e.Undecided("POST targets failed without an injected fault: %v", err)
 				return
@@ -281,6 +331,7 @@ func modelRunBubble(tp *core.Tape, e *core.Env, cfg nodeCfg) (ops []opRec) {
 		case 2: // restart
 			e.Logf("op %d restart", i)
 			ops = append(ops, opRec{"restart", nil})
+			restartAt := time.Now()
 			if err := n.Restart(NodeConfig, fileMode); err != nil {
 				if e.Property == "C10" {
 					e.Violate("restart", "start-fails", "sidecar does not start after a clean restart: %v", err)
@@ -289,7 +340,18 @@ func modelRunBubble(tp *core.Tape, e *core.Env, cfg nodeCfg) (ops []opRec) {
 				}
 				return
 			}
-			m.Restart()
+			m.Restart(restartAt)
+			// what is assigned now is what was persisted (an unacknowledged update is gone)
+			cur = map[uint64]*target.Target{}
+			curJob = map[uint64]string{}
+			for h, p := range m.disk {
+				cur[h] = MkTarget(h, p.job, p.state, p.series, p.total)
+				curJob[h] = p.job
+			}
+			m.jobOf = map[uint64]string{}
+			for h, p := range m.disk {
+				m.jobOf[h] = p.job
+			}
 			e.Fault("sidecar_restart")
 			kinds["restart"] = true
 			check("restart")
